@@ -198,6 +198,55 @@ def corrupt(name: str, kind: str, pos: int) -> Path | None:
     return p
 
 
+_treeno = [0]
+
+
+def build_tree(node, parent: Path, name: str) -> Path:
+    """materialise a WnProject path tree below `parent`; -> the path of the node"""
+    k = node['k']
+    if k == 'file':
+        what = node['what']
+        if what.startswith('lmf:'):
+            p = parent / f'{name}.xml'
+            shutil.copy(_xml(what[4:]), p)
+        elif what.startswith('ili:'):
+            p = parent / f'{name}.tsv'
+            shutil.copy(_ili(what[4:]), p)
+        else:
+            p = parent / f'{name}.txt'
+            p.write_text('not a resource\n')
+        return p
+    if k in ('gz', 'xz'):
+        inner = build_tree(node['of'], parent, name + '-raw')
+        p = parent / f'{name}.{k}'
+        data = inner.read_bytes()
+        p.write_bytes(gzip.compress(data) if k == 'gz' else lzma.compress(data))
+        inner.unlink()
+        return p
+    if k == 'dir':
+        d = parent / name
+        d.mkdir()
+        for j, kid in enumerate(node['kids']):
+            build_tree(kid, d, f'{name}-{j}')
+        return d
+    if k == 'tar':
+        stage = parent / f'{name}-stage'
+        stage.mkdir()
+        tops = [build_tree(kid, stage, f'{name}-{j}') for j, kid in enumerate(node['kids'])]
+        p = parent / f'{name}.tar.gz'
+        with tarfile.open(p, 'w:gz') as t:
+            for top in tops:
+                t.add(top, arcname=top.name)
+            if node.get('unsafe'):
+                import io
+                info = tarfile.TarInfo('../escape.txt')
+                info.size = 1
+                t.addfile(info, io.BytesIO(b'x'))
+        shutil.rmtree(stage)
+        return p
+    raise ValueError(k)
+
+
 def apply(op, handler=None) -> dict:
     """Execute one operation through the public API; -> {'ret': ..., extra}"""
     extra = {}
@@ -224,6 +273,14 @@ def apply(op, handler=None) -> dict:
                 extra['tmp_left'] = sorted(set(os.listdir(tempdir())) - tmp_before)
         elif op[0] == 'addcoll':
             src = collection_of(op[1], op[2])
+            before = file_sha(src)
+            wn.add(src, progress_handler=handler)
+            extra['inputs_unchanged'] = file_sha(src) == before
+        elif op[0] == 'addtree':
+            _treeno[0] += 1
+            root = base_dir() / 'trees'
+            root.mkdir(exist_ok=True)
+            src = build_tree(op[1], root, f't{_treeno[0]}')
             before = file_sha(src)
             wn.add(src, progress_handler=handler)
             extra['inputs_unchanged'] = file_sha(src) == before
